@@ -28,6 +28,8 @@ Open Scope string_scope.
 Definition check := Check.check gen_cfg.
 """
 
+PINNED_SELF_EXACT = (True, True)   # (_handle_self_join rule, in-place rename) of the pinned source (used only when T1 fails)
+
 DEPS = ["Base/Val.v", "Base/Expr.v", "Base/Sort.v", "Sql/Block.v", "C02/Join.v", "C02/How.v", "C02/Model.v",
         "C02/Proof.v", "C02/Check.v"]
 
@@ -168,7 +170,7 @@ def run_case(case, session, F, exp, order_seed=None):
 
 def _work(arg):
     """worker process: run a chunk of cases on the implementation and render them as Coq terms"""
-    chunk, order_seed = arg
+    chunk, order_seed, (self_exact, in_place) = arg
     logging.disable(logging.WARNING)     # join() logs a warning for every `on=None`
     from sqlframe.duckdb import DuckDBSession
     import sqlframe.duckdb.functions as F
@@ -181,7 +183,7 @@ def _work(arg):
     out = []
     for case in chunk:
         impl, exc, (exported, twh), why, b = run_case(case, session, F, exp, order_seed)
-        lin = rd.observe_lineage(case, session, F, b)
+        lin = rd.observe_lineage(case, session, F, b, self_exact=self_exact, rename_in_place=in_place)
         try:
             term = rd.case_coq(case, lin, impl, exported, table_wheres=twh)
             err = None
@@ -192,10 +194,10 @@ def _work(arg):
     return out
 
 
-def run_cases_parallel(cases, workers=6, order_seed=None):
+def run_cases_parallel(cases, workers=6, order_seed=None, self_exact=(False, False)):
     from concurrent.futures import ProcessPoolExecutor
     n = max(1, (len(cases) + workers * 4 - 1) // (workers * 4))
-    chunks = [(cases[i:i + n], order_seed) for i in range(0, len(cases), n)]
+    chunks = [(cases[i:i + n], order_seed, self_exact) for i in range(0, len(cases), n)]
     with ProcessPoolExecutor(max_workers=workers) as ex:
         res = list(ex.map(_work, chunks))
     return [r for ch in res for r in ch]
@@ -233,9 +235,12 @@ def run(ctx: core.Ctx):
         text, facts = c02_facts.generate(core.REPO)
         ctx.gen("C02Facts", text, facts)
         t1_ok = True
+        self_exact = (bool([f_ for f_ in facts if f_["name"].startswith("_handle_self_join")][0]["value"]),
+                      bool([f_ for f_ in facts if f_["name"].startswith("renamed duplicate CTEs")][0]["value"]))
     except Exception as ex:
         ctx.broken("T1:c02_facts", f"{type(ex).__name__}: {ex}")
         t1_ok = False
+        self_exact = PINNED_SELF_EXACT
         ctx.gen("C02Facts", open(core.VERIF + "/translate/c02_facts_pinned.v").read())
     # ---- proofs
     proved = ctx.prove([ctx.build + "/gen/C02Facts.v"] + ([core.COQ + "/props/C02.v"] if t1_ok else []), dep_theories=DEPS)
@@ -263,7 +268,7 @@ def run(ctx: core.Ctx):
         hist[h][k] = hist[h].get(k, 0) + 1
 
     ctx.log(f"running {len(cases)} cases on the implementation")
-    results = run_cases_parallel(cases, workers=8, order_seed=ctx.seed)
+    results = run_cases_parallel(cases, workers=8, order_seed=ctx.seed, self_exact=self_exact)
     for case, w in zip(cases, results):
         if w["term"] is None:
             ctx.broken("harness:render", f"{w['render_error']} on {rd.case_str(case)}")
